@@ -458,7 +458,8 @@ extern "C" int __wrap_epoll_wait(int ep, struct epoll_event *out, int maxev, int
   if (!kernel_is_simfd(ep) || fds[ep].kind != K_EPOLL) { errno = EBADF; return -1; }
   S.cycle++;
   if (S.cycle > S.max_cycles) { ev("HANG cycles"); ev_flush(); _exit(75); }
-  ev("cycle timeout=%d instr=%ld", timeout_ms, S.instr_total);
+  if (S.elig_on) ev("cycle timeout=%d instr=%ld elig=%ld", timeout_ms, S.instr_total, S.elig_total);
+  else ev("cycle timeout=%d instr=%ld", timeout_ms, S.instr_total);
   invariants_at_cycle();
   run_external_steps();
   advance_us(5);
